@@ -87,6 +87,29 @@ fn exec<T: Tbl>(ctx: &mut Ctx, ev: &Ev) {
             ctx.check("display-wrap", disp == wd, ev, "Display", || format!("Display gave {:?} expected {:?}", disp, wd));
             ctx.check("display-wrap", lx == wd, ev, "LowerHex", || format!("{{:x}} gave {:?} expected {:?}", lx, wd));
             ctx.check("display-wrap", lb == wb, ev, "Binary", || format!("{{:b}} gave {:?} expected {:?}", lb, wb));
+            // the formatting traits reached with format-spec flags, and through writers that fail (fmtprobe.rs)
+            {
+                use std::fmt::Write as _;
+                use vmon::fmtprobe as fp;
+                let salt = ev.digest();
+                let r = guard(|| {
+                    let mut checks = 0usize;
+                    checks += fp::judge_specs(&fp::display_specs(&f), &wd, Some("0x")).map_err(|(s, o)| ("format-flags", format!("{} gives {:?}, which does not carry {:?}", s, o, wd)))?;
+                    checks += fp::judge_specs(&fp::hex_specs(&f), &wd, Some("0x")).map_err(|(s, o)| ("format-flags", format!("{} gives {:?}, which does not carry {:?}", s, o, wd)))?;
+                    checks += fp::judge_specs(&fp::bin_specs(&f), &wb, Some("0b")).map_err(|(s, o)| ("format-flags", format!("{} gives {:?}, which does not carry {:?}", s, o, wb)))?;
+                    if wb.len() <= 600 || salt % 8 == 0 {
+                        checks += fp::judge_failing(&wd, &fp::caps_for(wd.len(), salt), &|w| write!(w, "{}", f), &|| format!("{}", f)).map_err(|m| ("failing-writer", format!("Display: {}", m)))?;
+                        checks += fp::judge_failing(&wd, &fp::caps_for(wd.len(), salt >> 7), &|w| write!(w, "{:x}", f), &|| format!("{:x}", f)).map_err(|m| ("failing-writer", format!("LowerHex: {}", m)))?;
+                        checks += fp::judge_failing(&wb, &fp::caps_for(wb.len(), salt >> 13), &|w| write!(w, "{:b}", f), &|| format!("{:b}", f)).map_err(|m| ("failing-writer", format!("Binary: {}", m)))?;
+                    }
+                    Ok::<usize, (&'static str, String)>(checks)
+                });
+                match r {
+                    Outcome::Returned(Ok(k)) => ctx.checked("display-wrap-any-route", k as u64),
+                    Outcome::Returned(Err((key, msg))) => ctx.violate("display-wrap-any-route", ev, key, msg),
+                    Outcome::Panicked(m) => ctx.violate("no-panic", ev, "print-routes", format!("formatting with flags / into a failing writer panicked: {}", m)),
+                }
+            }
             // round trip on what the library itself printed
             match guard(|| T::t_from_hex_string(n, &hex)) {
                 Outcome::Returned(Ok(back)) => {
